@@ -48,14 +48,24 @@ func runC04S(r *simkit.Run, c Cfg) {
 			rq2.URL.Path = ipnisync.IPNIPath + "/" + strings.TrimPrefix(rq.URL.Path, "/")
 			pub.Pub.ServeHTTP(rw, rq2)
 		})
-		hh.WellKnownHandler.AddProtocolMeta("/ipni/v1/ae", libp2phttp.ProtocolMeta{Path: ipnisync.IPNIPath + "/"})
+		noPath := tp.Chance(1, 2, "damaged.noPath")
+		if noPath {
+			// the protocol listed without a path: go-libp2p panics over
+			// that inside the client set-up, the library turns the panic
+			// into an error - and must forget the document all the same
+			hh.WellKnownHandler.AddProtocolMeta(ipnisync.ProtocolID, libp2phttp.ProtocolMeta{})
+		} else {
+			hh.WellKnownHandler.AddProtocolMeta("/ipni/v1/ae", libp2phttp.ProtocolMeta{Path: ipnisync.IPNIPath + "/"})
+		}
 		healed := false
 		heal = func() {
 			if healed {
 				return
 			}
 			healed = true
-			hh.WellKnownHandler.RemoveProtocolMeta("/ipni/v1/ae")
+			if !noPath {
+				hh.WellKnownHandler.RemoveProtocolMeta("/ipni/v1/ae")
+			}
 			hh.SetHTTPHandlerAtPath(ipnisync.ProtocolID, ipnisync.IPNIPath+"/", handler)
 		}
 		go hh.Serve()
